@@ -7,6 +7,7 @@ Quirk = 1
 MaxEvents = 5
 Lists <- ListsB
 HealthVals = {TRUE}
+BalVals = {0, 1}
 INIT Init
 NEXT Next
 CHECK_DEADLOCK FALSE
